@@ -349,11 +349,50 @@ def run(ctx):
     # -- R18.3 -------------------------------------------------------------------------------------------
     ctx.rule("R18.3", "dates: refusal before mutation; written pattern readable by the reader; xsi:type; offsets to UTC")
     sdt = el.methods.get("_set_element_datetime")
-    prs = el.methods.get("_parse_W3CDTF_to_datetime")
-    off = el.methods.get("_offset_dt")
+    doe = el.methods.get("_datetime_of_element")
+    from sa.inline import resolve_callee as _rc18
+
+    def _callee_in(f_, want_):
+        """the repository function a call in f_ resolves to (methods, aliases `name = staticmethod(fn)`, module functions), when
+        want_(callee node) holds"""
+        for x_ in ast.walk(f_.node):
+            if isinstance(x_, ast.Call):
+                g_ = None
+                try:
+                    rc_ = _rc18(prog, f_, x_, {})
+                except Exception:  # noqa: BLE001
+                    rc_ = None
+                if rc_ is not None and hasattr(rc_[0], "node"):
+                    g_ = rc_[0]
+                else:
+                    fd_ = dotted(x_.func) or ""
+                    if fd_.startswith(("self.", "cls.")) and fd_.count(".") == 1 and f_.cls is not None:
+                        a_ = prog.lookup_attr(f_.cls, fd_.split(".")[1])
+                        v_ = a_[1] if a_ else None
+                        if isinstance(v_, ast.Call) and dotted(v_.func) in ("staticmethod", "classmethod") and v_.args:
+                            v_ = v_.args[0]
+                        if v_ is not None and dotted(v_):
+                            r_ = prog.resolve(a_[0].module, dotted(v_))
+                            g_ = r_ if hasattr(r_, "node") else None
+                if g_ is not None and g_.node is not f_.node and want_(g_.node):
+                    return g_
+        return None
+
+    # the parser is what the reader accessor calls under its try; the offset conversion is what the parser calls that works
+    # with a timedelta
+    prs = el.methods.get("_parse_W3CDTF_to_datetime") or (doe and _callee_in(doe, lambda n_: any(
+        isinstance(y, ast.Attribute) and y.attr == "strptime" for y in ast.walk(n_))))
+    off = el.methods.get("_offset_dt") or (prs and _callee_in(prs, lambda n_: any(
+        isinstance(y, ast.Attribute) and y.attr == "timedelta" for y in ast.walk(n_))))
     if not (sdt and prs and off):
         raise AnalysisError("anchor vanished: _set_element_datetime / _parse_W3CDTF_to_datetime / _offset_dt")
+    # the setter in canonical form: a validation extracted into a helper is read in place
     body = _body(sdt)
+    try:
+        _sx = _expand(prog, sdt, local_only=True, skip_names=("_get_or_add",))
+        body = [s_ for s_ in _sx.body if not (isinstance(s_, ast.Expr) and isinstance(s_.value, ast.Constant))]
+    except Exception:  # noqa: BLE001
+        pass
     vname = sdt.node.args.args[2].arg
 
     def inst_test(t):
@@ -368,9 +407,35 @@ def run(ctx):
         ctx.violation("R18.3", "_set_element_datetime:refusal", "a non-datetime is not refused with ValueError before mutation (guard@%s mutation@%s exc=%s)"
                       % (gi, mi, exc), file=sdt.file, line=sdt.line)
     wfmt = None
-    for x in ast.walk(sdt.node):
+
+    def _written(x):
+        """the pattern of the text an expression writes: strftime's format; isoformat() as the directives it stands for (the
+        offset of an aware value, `%z`, is part of its output; so are the microseconds unless timespec cuts them); constants
+        concatenated to either"""
         if isinstance(x, ast.Call) and isinstance(x.func, ast.Attribute) and x.func.attr == "strftime" and dotted(x.func.value) == vname and x.args:
-            wfmt = prog.const(x.args[0], sdt.module, None, el)
+            v_ = prog.const(x.args[0], sdt.module, None, el)
+            return v_ if isinstance(v_, str) else None
+        if isinstance(x, ast.Call) and isinstance(x.func, ast.Attribute) and x.func.attr == "isoformat" and dotted(x.func.value) == vname:
+            kw_ = {k.arg: prog.const(k.value, sdt.module, None, el) for k in x.keywords}
+            sep_ = prog.const(x.args[0], sdt.module, None, el) if x.args else kw_.get("sep", "T")
+            ts_ = prog.const(x.args[1], sdt.module, None, el) if len(x.args) > 1 else kw_.get("timespec", "auto")
+            if not isinstance(sep_, str) or ts_ not in ("auto", "seconds", "milliseconds", "microseconds"):
+                return None
+            return "%Y-%m-%d" + sep_ + "%H:%M:%S" + ("" if ts_ == "seconds" else "%f") + "%z"
+        if isinstance(x, ast.BinOp) and isinstance(x.op, ast.Add):
+            l_, r_ = _written(x.left), _written(x.right)
+            l_ = l_ if l_ is not None else (x.left.value.replace("%", "%%") if isinstance(x.left, ast.Constant) and isinstance(x.left.value, str) else None)
+            r_ = r_ if r_ is not None else (x.right.value.replace("%", "%%") if isinstance(x.right, ast.Constant) and isinstance(x.right.value, str) else None)
+            return l_ + r_ if l_ is not None and r_ is not None else None
+        return None
+
+    _cands = [(x, _written(x)) for x in ast.walk(sdt.node)]
+    _cands = [(x, w_) for x, w_ in _cands if w_ is not None]
+    if _cands:
+        # the outermost expression that writes a pattern (a concatenation contains its operands)
+        _inner = {id(y) for x, _ in _cands for y in ast.walk(x) if y is not x}
+        _outer = [w_ for x, w_ in _cands if id(x) not in _inner]
+        wfmt = _outer[0] if len(_outer) == 1 else None
     templates = None
     slice_hi = None
     off_len = None
@@ -482,9 +547,13 @@ def run(ctx):
         ctx.ok("R18.3", "written-pattern-readable", sample={"written": wfmt, "reader_templates": list(templates), "slice": slice_hi,
                                                            "suffix": "%r denotes UTC (offset width %s)" % (tail, off_len)})
     # every parse path either returns a timestamp or raises ValueError (caught by _datetime_of_element -> None)
-    doe = el.methods.get("_datetime_of_element")
+    def _is_parser_call(c):
+        if dotted(c.func) == "self._parse_W3CDTF_to_datetime":
+            return True
+        return prs.cls is None and dotted(c.func) == prs.name and prog.resolve(doe.module, prs.name) is prs
+
     caught = any(isinstance(t, ast.Try) and any(dotted(h.type) == "ValueError" for h in t.handlers)
-                 and any(isinstance(c, ast.Call) and dotted(c.func) == "self._parse_W3CDTF_to_datetime" for c in ast.walk(t))
+                 and any(isinstance(c, ast.Call) and _is_parser_call(c) for c in ast.walk(t))
                  for t in ast.walk(doe.node)) if doe else False
     if caught:
         ctx.ok("R18.3", "_datetime_of_element", sample={"unparseable": "None (ValueError caught)"})
@@ -542,11 +611,22 @@ def run(ctx):
     # field) and M (minutes field); expected -(60H + M) for '+', +(60H + M) for '-'
     from sa.poly import Poly
 
+    from checks.c04 import _compiled_pattern as _cp18
+
     offset_pat = None
     for stn in el.node.body:
         if isinstance(stn, ast.Assign) and isinstance(stn.targets[0], ast.Name) and stn.targets[0].id == "_offset_pattern" \
                 and isinstance(stn.value, ast.Call) and stn.value.args:
             offset_pat = prog.const(stn.value.args[0], el.module)
+    for x_ in ast.walk(off.node):
+        # the pattern the conversion matches the offset with, wherever it is defined (class constant, module constant, literal)
+        if isinstance(x_, ast.Call) and isinstance(x_.func, ast.Attribute) and x_.func.attr in ("match", "fullmatch"):
+            if dotted(x_.func.value) == "re" and x_.args:
+                v_ = prog.const(x_.args[0], off.module, None, off.cls)
+                offset_pat = v_ if isinstance(v_, str) else offset_pat
+            else:
+                v_ = _cp18(prog, off, x_.func.value)
+                offset_pat = v_ if isinstance(v_, str) else offset_pat
 
     def offset_minutes(sign_char):
         env = {}
@@ -640,7 +720,7 @@ def run(ctx):
                             env[s2.targets[0].id] = ev(s2.value)
             elif isinstance(st, ast.Return):
                 r = st.value
-                dparam = off.node.args.args[1].arg
+                dparam = [a_.arg for a_ in off.node.args.args if a_.arg not in ("self", "cls")][0]
                 if isinstance(r, ast.BinOp) and isinstance(r.op, (ast.Add, ast.Sub)) and dotted(r.left) == dparam:
                     d = ev(r.right)
                     return d if isinstance(r.op, ast.Add) else -d
@@ -650,11 +730,7 @@ def run(ctx):
         raise ValueError("no return")
 
     total = Poly.const(60) * Poly.sym("H") + Poly.sym("M")
-    pat = None
-    for stn in el.node.body:
-        if isinstance(stn, ast.Assign) and isinstance(stn.targets[0], ast.Name) and stn.targets[0].id == "_offset_pattern" \
-                and isinstance(stn.value, ast.Call) and stn.value.args:
-            pat = prog.const(stn.value.args[0], el.module)
+    pat = offset_pat
     width = None
     if isinstance(pat, str):
         try:
@@ -688,6 +764,14 @@ def run(ctx):
     if not (rs and rg):
         raise AnalysisError("anchor vanished: revision_number")
     body = _body(rs)
+    rs_node, rg_node = rs.node, rg.node
+    try:
+        # canonical form: an extracted validation / conversion helper is read in place
+        rs_node = _expand(prog, rs, local_only=True)
+        rg_node = _expand(prog, rg, local_only=True)
+        body = [s_ for s_ in rs_node.body if not (isinstance(s_, ast.Expr) and isinstance(s_.value, ast.Constant))]
+    except Exception:  # noqa: BLE001
+        rs_node, rg_node = rs.node, rg.node
     vname = rs.node.args.args[1].arg
 
     def rev_test(t):
@@ -704,32 +788,45 @@ def run(ctx):
     gi, exc = _guard(body, rev_test)
     mi = _first_mutation_index(body)
     wr = any(isinstance(x, ast.Assign) and any(isinstance(t, ast.Attribute) and t.attr == "text" for t in x.targets) and isinstance(x.value, ast.Call)
-             and dotted(x.value.func) == "str" and dotted(x.value.args[0]) == vname for x in ast.walk(rs.node))
+             and dotted(x.value.func) == "str" and dotted(x.value.args[0]) == vname for x in ast.walk(rs_node))
     if gi is not None and mi is not None and gi < mi and exc == "ValueError" and wr:
         ctx.ok("R18.4", "revision_number.setter", sample={"accepts": "int >= 1", "refuses": "ValueError before the element is created", "stores": "str(value)"})
     else:
         ctx.violation("R18.4", "revision_number.setter", "revision does not refuse non-positive / non-int values with ValueError before mutation "
                       "(guard@%s mutation@%s exc=%s writes str(value)=%s)" % (gi, mi, exc, wr), file=rs.file, line=rs.line)
-    rets = [x.value for x in walk_own(rg.node) if isinstance(x, ast.Return)]
+    rets = [x.value for x in walk_own(rg_node) if isinstance(x, ast.Return)]
 
-    def int_valued(e, depth=0):
+    def int_valued(e, depth=0, fn_=None, owner_=None):
+        fn_ = fn_ if fn_ is not None else rg_node
+        owner_ = owner_ if owner_ is not None else rg
         if depth > 5 or e is None:
+            return False
+        if isinstance(e, ast.Call) and dotted(e.func) not in ("int", "max", "min", "abs"):
+            # a conversion helper of the repository: every one of its returns is an integer
+            try:
+                rc_ = _rc18(prog, owner_, e, {})
+            except Exception:  # noqa: BLE001
+                rc_ = None
+            if rc_ is not None and hasattr(rc_[0], "node"):
+                g_ = rc_[0]
+                rs_ = [x.value for x in walk_own(g_.node) if isinstance(x, ast.Return)]
+                return bool(rs_) and all(int_valued(r_, depth + 1, g_.node, g_) for r_ in rs_)
             return False
         if isinstance(e, ast.Constant):
             return isinstance(e.value, int) and not isinstance(e.value, bool)
         if isinstance(e, ast.Call) and dotted(e.func) == "int":
             return True
         if isinstance(e, ast.Call) and dotted(e.func) in ("max", "min", "abs") and e.args:
-            return all(int_valued(a_, depth + 1) for a_ in e.args)
+            return all(int_valued(a_, depth + 1, fn_, owner_) for a_ in e.args)
         if isinstance(e, ast.BinOp) and isinstance(e.op, (ast.Add, ast.Sub, ast.Mult, ast.FloorDiv, ast.Mod)):
-            return int_valued(e.left, depth + 1) and int_valued(e.right, depth + 1)
+            return int_valued(e.left, depth + 1, fn_, owner_) and int_valued(e.right, depth + 1, fn_, owner_)
         if isinstance(e, ast.IfExp):
-            return int_valued(e.body, depth + 1) and int_valued(e.orelse, depth + 1)
+            return int_valued(e.body, depth + 1, fn_, owner_) and int_valued(e.orelse, depth + 1, fn_, owner_)
         if isinstance(e, ast.Name):
             # the value reaching a return is the last int binding: accept when some binding is int-valued and every binding is either
             # int-valued or the element / its text (re-used local names in the original code)
-            bs = [n_.value for n_ in ast.walk(rg.node) if isinstance(n_, ast.Assign) and any(isinstance(t, ast.Name) and t.id == e.id for t in n_.targets)]
-            return any(int_valued(b_, depth + 1) for b_ in bs)
+            bs = [n_.value for n_ in ast.walk(fn_) if isinstance(n_, ast.Assign) and any(isinstance(t, ast.Name) and t.id == e.id for t in n_.targets)]
+            return any(int_valued(b_, depth + 1, fn_, owner_) for b_ in bs)
         return False
 
     if rets and all(int_valued(r) for r in rets):
